@@ -40,6 +40,20 @@ def cases(tier, seed):
             continue
         for rep in ("sympy", "csr"):
             out.append(dict(st, repr=rep, vset=0, total=3))
+    # legacy scipy.sparse matrix classes (`*` is a matrix product there), already separated into blocks
+    for st in lattice.structures(3, hermitian=True, ks=(1,), patterns=("dense",), supports={1: [[(1,)], [(1,), (2,)]]}):
+        for rep in ("csrm-blocks", "coom-blocks"):
+            out.append(dict(st, repr=rep, vset=0, total=3))
+    for st in lattice.mask_structures(3, hermitian=True):
+        out.append(dict(st, repr="csrm-blocks", vset=0, total=3))
+    # a mask on a block other than the first, with a non-transitive kept set
+    for sizes in ((1, 3), (2, 3)):
+        for E in lattice.level_patterns(sizes):
+            Eb = [tuple(e) for e in E[sizes[0]:]]
+            for m in lattice.sym_masks(3, Eb, True):
+                for rep in ("sympy", "dense") if sizes == (1, 3) else ("dense",):
+                    out.append(dict(sizes=list(sizes), E=E, k=1, support=[[1]], pattern="dense", fd=None, mask={"1": m},
+                                    hermitian=True, repr=rep, vset=0, total=3))
     # degeneracy-threshold families (float representations only):
     #  (a) a fully diagonalised block sitting at a large common offset (gaps >= 1, |E| = 2e5: distinct levels)
     #  (b) degenerate levels given with rounding noise (equal within atol but not bit-identical)
